@@ -139,12 +139,14 @@ def main():
         # blanked), simplest case first; at most 12 files per run
         classes = collections.OrderedDict()
         for v in new:
-            k = (v.part, re.sub(r"[-+]?[0-9][0-9.e+-]*", "#",
-                                re.sub(r"\[[^\]]*\]|\([^)]*\)", "[..]", v.message))[:160])
-            classes.setdefault(k, []).append(v)
+            classes.setdefault((v.part, core.message_class(v.message)), []).append(v)
         chosen = [vs[0] for vs in classes.values()]
+        counts = collections.Counter()
+        for p in ctx.parts.values():
+            for k, n in getattr(p, "vclasses", {}).items():
+                counts[(p.name, k)] += n
         for k, vs in classes.items():
-            sys.stderr.write("  class x%d part=%s: %s\n" % (len(vs), k[0], k[1][:140].replace("\n", " ")))
+            sys.stderr.write("  class x%d part=%s: %s\n" % (counts.get(k, len(vs)), k[0], k[1]))
         for v in chosen[:12]:
             if v.sig() in seen:
                 continue
